@@ -104,12 +104,15 @@ def build_harness(crate="harness"):
             if rc != 0:
                 return False, out
             env["CARGO_TARGET_DIR"] = TARGET + "-sched"
+        if crate == "harness-render":
+            env["CARGO_TARGET_DIR"] = TARGET + "-render"
         rc, out = sh(["cargo", "build", "--offline", "--release"], cwd=d, timeout=3000, env=env)
         return rc == 0, out
 
 
 def hbin(name, crate="harness"):
-    return os.path.join(TARGET + ("-sched" if crate == "harness-sched" else ""), "release", name)
+    suffix = {"harness-sched": "-sched", "harness-render": "-render"}.get(crate, "")
+    return os.path.join(TARGET + suffix, "release", name)
 
 
 # ----------------------------------------------------------------------------- hygiene
